@@ -13,6 +13,8 @@ demo=$(ls $out/demo${i}_test.go $out/demo$i/main.go 2>/dev/null | head -1)
 [ -f "$patch" ] && [ -n "$demo" ] || { echo "missing deliverables in $out"; exit 2; }
 # where does the demo go?  (first "<something>/demoN_test.go" mentioned in its header comment)
 place=$(head -40 "$demo" | grep -oE "((cmd|examples)/[A-Za-z0-9_-]+|mp4|bits|avc|hevc|sei|aac|av1)/demo${i}_test.go" | head -1)
+[ -z "$place" ] && place=$(head -40 "$demo" | grep -oE "(cmd|examples)/[A-Za-z0-9_-]+/" | head -1 | sed "s|\$|demo${i}_test.go|")
+[ -n "$PLACE" ] && place="$PLACE"
 [ -z "$place" ] && place="mp4/demo${i}_test.go"
 runpat=$(head -40 "$demo" | grep -o "\-run [^ ]*" | head -1 | awk '{print $2}' | tr -d "'\"")
 [ -z "$runpat" ] && runpat="TestDemo$i"
